@@ -109,6 +109,28 @@ fn c19_block() {
     println!("NONE {}", cases);
 }
 
+/// C19 (source order): sequences of three rules of equal specificity, repeats included: the last rule that matches wins
+fn c19_order() {
+    let rules = [(".x", "#ff0000", (255u8, 0u8, 0u8)), (".y", "#0000ff", (0, 0, 255)), (".z", "#00ff00", (0, 255, 0))];
+    let mut cases = 0u64;
+    for a in 0..3 { for b in 0..3 { for c in 0..3 { for split in [false, true] {
+        let seq = [a, b, c];
+        let mut css = String::new();
+        for &k in &seq { css.push_str(&format!("{}{{color:{};}} ", rules[k].0, rules[k].1)); }
+        cases += 1;
+        // `split`: the rules arrive in two add_css calls
+        let cfg = if split {
+            let first = format!("{}{{color:{};}}", rules[a].0, rules[a].1);
+            let rest = format!("{}{{color:{};}} {}{{color:{};}}", rules[b].0, rules[b].1, rules[c].0, rules[c].1);
+            match config::rich().add_css(&first).and_then(|cfg| cfg.add_css(&rest)) { Ok(c) => c, Err(_) => continue }
+        } else { match config::rich().add_css(&css) { Ok(c) => c, Err(_) => continue } };
+        let got = colour_of(cfg, "<p class=\"x y z\">t</p>");
+        let want = Some(rules[c].2);
+        if got != want { found("c19_order", &format!("css={} split={} html=<p class=\"x y z\">t</p>", css, split), &format!("colour {:?}, expected the last rule's {:?}", got, want)); }
+    }}}}
+    println!("NONE {}", cases);
+}
+
 /// C19 (inheritance): a child's own winning declaration must beat any inherited colour
 fn c19_inherit() {
     let sels_parent = ["#pp", "div.k", "div"];
@@ -456,6 +478,7 @@ fn main() {
         "c19" => c19(),
         "c19_inherit" => c19_inherit(),
         "c19_block" => c19_block(),
+        "c19_order" => c19_order(),
         "dbg" => dbg(),
         "dbgcss" => dbgcss(),
         "c16_trivial" => c16_trivial(),
